@@ -352,6 +352,11 @@ func runC08(c *Ctx) {
 	r.TrustedBase = []string{"independent acceptor lpClassify over the reply as deliverable", "harness/srv encoder", "Go crypto for the server key"}
 	r.Assumptions = []string{"unspecified (counted, never judged): the server's DONE missing but supplied by the library, a non-final DONE in encrypted round 1, extra packages before the round-2 acknowledgement or after the final DONE, a single all-zero capability type", "a zero-length nonce is a NULL parameter and not generated as valid script (a conforming server sends a nonce)", "missing packages are detected at context expiry: contexts of 400 ms, structural verdict after a 15 s watchdog"}
 	if c.Replay != nil {
+		var hc c08HistCase
+		if json.Unmarshal(c.Replay, &hc) == nil && hc.Family == "history" {
+			c08HistRun(c, hc, map[string]*bool{})
+			return
+		}
 		var wc c08WaitCase
 		if json.Unmarshal(c.Replay, &wc) == nil && wc.Family == "wait" && wc.Kind == "slow-reply" {
 			if sc, ok := c08WaitScripts()[wc.Name]; ok {
@@ -379,6 +384,7 @@ func runC08(c *Ctx) {
 		return
 	}
 	runC08Wait(c)
+	runC08History(c)
 	quick := c.Quick()
 	cutClasses := []string{"one-packet", "random"}
 	if !quick {
